@@ -141,7 +141,11 @@ class Taint:
                     lv[b.id] = set()
                 return
         if self.shape(it) == "PAIRS" and isinstance(tgt, ast.Tuple) and len(tgt.elts) == 2:
-            k = self.new_origin(f"comprehension over {ast.unparse(it)[:40]}")
+            # one origin per comprehension clause, however often the fixpoint revisits it
+            memo = self.__dict__.setdefault("_comp_origin", {})
+            k = memo.get(id(g))
+            if k is None:
+                k = memo[id(g)] = self.new_origin(f"comprehension over {ast.unparse(it)[:40]}")
             a, b = tgt.elts
             if isinstance(a, ast.Name):
                 lv[a.id] = {k}
@@ -292,64 +296,78 @@ def run(ctx: Ctx):
             elif isinstance(n, ast.YieldFrom):
                 n_yields += 1
                 src = n.value
-                if isinstance(src, ast.Call) and (dotted(src.func) or "").split(".")[-1] in pairgens:
-                    ctx.ok("flag-covers-value", {"function": fname, "delegates_to": dotted(src.func)})
-                    continue
-                if _pair_stream(m, fn, src, pairgens, 0):
-                    ctx.ok("flag-covers-value", {"function": fname, "delegates_to": "chain of pair generators"})
-                    continue
-                if isinstance(src, ast.Call) and _table_of_pairgens(m, fn, src.func, pairgens):
-                    ctx.ok("flag-covers-value", {"function": fname, "delegates_to": "table:" + ast.unparse(src.func)[:40]})
-                    continue
-                if isinstance(src, ast.GeneratorExp) and isinstance(src.elt, ast.Tuple) and len(src.elt.elts) == 2:
-                    V, X = src.elt.elts
-                    lv, lx = {}, {}
-                    for g in src.generators:
-                        t._bind_comp(g, lv, lx, {}, {})
-                    vv, _ = t.origins(V, lv, lx)
-                    _, xx = t.origins(X, lv, lx)
-                    missing = xx - vv
-                    if missing and isinstance(V, ast.Constant) and V.value is True:
-                        # named exception: LSPAny / LSPObject / LSPArray payloads are valid whatever they contain;
-                        # it must be guarded by exactly that membership test
-                        guard_ok = False
-                        p = m.parents.get(m.parents.get(n))
-                        while p is not None and p is not fn:
-                            if isinstance(p, ast.If) and isinstance(p.test, ast.Compare) and isinstance(p.test.ops[0], ast.In):
-                                coll = p.test.comparators[0]
-                                if isinstance(coll, ast.Name):
-                                    # a hoisted module-level constant collection
-                                    cname_ = coll.id
-                                    for st_ in m.tree.body:
-                                        if isinstance(st_, (ast.Assign, ast.AnnAssign)) and getattr(st_, "value", None) is not None:
-                                            tg_ = st_.targets if isinstance(st_, ast.Assign) else [st_.target]
-                                            if any(isinstance(t_, ast.Name) and t_.id == cname_ for t_ in tg_):
-                                                coll = st_.value
-                                    if isinstance(coll, ast.Call) and dotted(coll.func) in ("frozenset", "tuple", "set", "list") \
-                                            and len(coll.args) == 1:
-                                        coll = coll.args[0]
-                                if isinstance(coll, (ast.List, ast.Tuple, ast.Set)):
-                                    names = {e.value for e in coll.elts if isinstance(e, ast.Constant)}
-                                    guard_ok = names <= set(RELABEL_EXCEPTION[1])
-                            p = m.parents.get(p)
-                        ctx.check(guard_ok, "relabel-exception-guarded", f"{fname}:relabel",
-                                  "values are relabelled True outside the LSPAny/LSPObject/LSPArray exception", P_TD, n.lineno)
-                        continue
-                    ctx.check(not missing, "flag-covers-value", f"{fname}:yield from ({ast.unparse(V)[:30]}, {ast.unparse(X)[:30]})",
-                              "a generator expression relabels generated values", P_TD, n.lineno)
-                    continue
-                # a stream that carries nothing a pair generator produced (a constant table of labelled samples): its
-                # labels are the table's own (decided by the base-table rule (b) on the folded output)
-                try:
-                    vv0, xx0 = t.origins(src, {}, {})
-                except Exception:
-                    vv0, xx0 = {1}, {1}
-                if not vv0 and not xx0 and not any(isinstance(c_, ast.Call) and (dotted(c_.func) or "").split(".")[-1] in pairgens
-                                                   for c_ in ast.walk(src)):
-                    ctx.ok("flag-covers-value", {"function": fname, "delegates_to": "constant samples"})
+
+                def operand(src, anchor, depth=0):
+                    """One stream handed to `yield from`: decided by the rules below; a name stands for each of the
+                    streams it is bound to in this function (each decided where it is bound)."""
+                    if isinstance(src, ast.Name) and depth < 3:
+                        defs = [st for st in ast.walk(fn) if isinstance(st, ast.Assign)
+                                and any(isinstance(t_, ast.Name) and t_.id == src.id for t_ in st.targets)]
+                        others = [st for st in ast.walk(fn) if isinstance(st, (ast.AugAssign, ast.For))
+                                  and any(isinstance(t_, ast.Name) and t_.id == src.id for t_ in ast.walk(st.target))]
+                        if len(defs) > 1 and not others and not _pair_stream(m, fn, src, pairgens, 0):
+                            return all(operand(st.value, st, depth + 1) for st in defs)
+                    if isinstance(src, ast.Call) and (dotted(src.func) or "").split(".")[-1] in pairgens:
+                        ctx.ok("flag-covers-value", {"function": fname, "delegates_to": dotted(src.func)})
+                        return True
+                    if _pair_stream(m, fn, src, pairgens, 0):
+                        ctx.ok("flag-covers-value", {"function": fname, "delegates_to": "chain of pair generators"})
+                        return True
+                    if isinstance(src, ast.Call) and _table_of_pairgens(m, fn, src.func, pairgens):
+                        ctx.ok("flag-covers-value", {"function": fname, "delegates_to": "table:" + ast.unparse(src.func)[:40]})
+                        return True
+                    if isinstance(src, ast.GeneratorExp) and isinstance(src.elt, ast.Tuple) and len(src.elt.elts) == 2:
+                        V, X = src.elt.elts
+                        lv, lx = {}, {}
+                        for g in src.generators:
+                            t._bind_comp(g, lv, lx, {}, {})
+                        vv, _ = t.origins(V, lv, lx)
+                        _, xx = t.origins(X, lv, lx)
+                        missing = xx - vv
+                        if missing and isinstance(V, ast.Constant) and V.value is True:
+                            # named exception: LSPAny / LSPObject / LSPArray payloads are valid whatever they contain;
+                            # it must be guarded by exactly that membership test
+                            guard_ok = False
+                            p = m.parents.get(anchor)
+                            while p is not None and p is not fn:
+                                if isinstance(p, ast.If) and isinstance(p.test, ast.Compare) and isinstance(p.test.ops[0], ast.In):
+                                    coll = p.test.comparators[0]
+                                    if isinstance(coll, ast.Name):
+                                        # a hoisted module-level constant collection
+                                        cname_ = coll.id
+                                        for st_ in m.tree.body:
+                                            if isinstance(st_, (ast.Assign, ast.AnnAssign)) and getattr(st_, "value", None) is not None:
+                                                tg_ = st_.targets if isinstance(st_, ast.Assign) else [st_.target]
+                                                if any(isinstance(t_, ast.Name) and t_.id == cname_ for t_ in tg_):
+                                                    coll = st_.value
+                                        if isinstance(coll, ast.Call) and dotted(coll.func) in ("frozenset", "tuple", "set", "list") \
+                                                and len(coll.args) == 1:
+                                            coll = coll.args[0]
+                                    if isinstance(coll, (ast.List, ast.Tuple, ast.Set)):
+                                        names = {e.value for e in coll.elts if isinstance(e, ast.Constant)}
+                                        guard_ok = names <= set(RELABEL_EXCEPTION[1])
+                                p = m.parents.get(p)
+                            ctx.check(guard_ok, "relabel-exception-guarded", f"{fname}:relabel",
+                                      "values are relabelled True outside the LSPAny/LSPObject/LSPArray exception", P_TD, anchor.lineno)
+                            return True
+                        ctx.check(not missing, "flag-covers-value", f"{fname}:yield from ({ast.unparse(V)[:30]}, {ast.unparse(X)[:30]})",
+                                  "a generator expression relabels generated values", P_TD, anchor.lineno)
+                        return True
+                    # a stream that carries nothing a pair generator produced (a constant table of labelled samples): its
+                    # labels are the table's own (decided by the base-table rule (b) on the folded output)
+                    try:
+                        vv0, xx0 = t.origins(src, {}, {})
+                    except Exception:
+                        vv0, xx0 = {1}, {1}
+                    if not vv0 and not xx0 and not any(isinstance(c_, ast.Call) and (dotted(c_.func) or "").split(".")[-1] in pairgens
+                                                       for c_ in ast.walk(src)):
+                        ctx.ok("flag-covers-value", {"function": fname, "delegates_to": "constant samples"})
+                        return True
+                    return False
+                if operand(src, n):
                     continue
                 raise AnalysisError(f"{P_TD}:{n.lineno}: unsupported `yield from` operand in {fname}")
-    ctx.floor("yield sites", n_yields, 45)
+    ctx.floor("yield sites", n_yields, 20)      # obligations (each is checked), not witnesses: table-driven code has fewer
 
     # ---------------------------------------------------------------- (b) base tables
     it = microeval.Interp(m.tree, name=P_TD)
